@@ -177,7 +177,7 @@ P_FIXED_T = [
     (135.0, -35.264389682754654), (225.0, 35.264389682754654), (315.0, -35.264389682754654),
 ]
 # a geometric ladder towards 180 degrees (the branch switch of the chord formula may sit anywhere in there)
-SEPS_Q = (1e-12, 1e-9, 1e-6, 1e-3, 1.0, 60.0, 90.0, SB - 1e-6, SB + 1e-6, 176.0, 178.0, 179.0, 179.5, 179.8, 179.9,
+SEPS_Q = (1e-12, 1e-9, 1e-6, 1e-5, 1e-4, 1e-3, 0.01, 0.03, 0.1, 0.3, 1.0, 3.0, 10.0, 30.0, 60.0, 90.0, SB - 1e-6, SB + 1e-6, 176.0, 178.0, 179.0, 179.5, 179.8, 179.9,
           179.95, 179.98, 179.99, 179.995, 180 - 1e-3, 180 - 1e-4, 180 - 1e-6, 180 - 1e-9, 180.0)
 SEPS_T = tuple(sorted(set(SEPS_Q + (
     1e-13, 1e-11, 1e-10, 1e-8, 1e-7, 1e-5, 1e-4, 1e-2, 0.1, 10.0, 30.0, 45.0, 89.999999, 120.0, 150.0,
@@ -659,3 +659,57 @@ def main(ctx):
 
     call_sequences(ctx, "call-sequences", seq_pool, SEQ_CALLS, seq_run, lambda: [coords], depth=ctx.pick(3, 4),
                    mutations=[("ra",)], mutate=seq_mut, nodedup_depth=3)
+
+    # ------------------------------------------------------------ long arrays (block-wise evaluation)
+    # one call on millions of rows: a base block of pairs (all separations, identical pairs, antipodes) tiled with a
+    # period coprime to every decimal/binary block size, so identical pairs and large separations sit at every
+    # residue of any block boundary; each element against the long-double truth of its base pair
+    def one_long(case, rec):
+        fn, units, n, form = case
+        uin, uout = units_of(fn, units)
+        base = []
+        for p in P[:6]:
+            for q in partners(p, tuple(P[:3]), (1e-9, 0.03, 1.0, 90.0, 179.0, 180 - 1e-6), (0.0, 77.0)):
+                base.append((p[0], p[1], q[0], q[1]))
+        base = np.array(base[:199], dtype="f8")            # 199 is prime
+        if uin == "rad":
+            base = np.radians(base)
+        t = true_sep(base[:, 0], base[:, 1], base[:, 2], base[:, 3], uin)
+        tout = t / D2R if uout == "deg" else t
+        tol, vmax = limits(fn, uout)
+        ident = (base[:, 0] == base[:, 2]) & (base[:, 1] == base[:, 3])
+        idx = np.arange(n) % base.shape[0]
+        cols = [np.ascontiguousarray(base[idx, j]) for j in range(4)]
+        if form == "centre":                                # scalar first point against a long array containing it
+            k = int(np.nonzero(ident)[0][0])
+            a = (float(base[k, 0]), float(base[k, 1]))
+            b = (cols[2], cols[3])
+            t = true_sep(np.full(base.shape[0], a[0]), np.full(base.shape[0], a[1]), base[:, 2], base[:, 3], uin)
+            tout = t / D2R if uout == "deg" else t
+            ident = (base[:, 2] == a[0]) & (base[:, 3] == a[1])
+        else:
+            a, b = (cols[0], cols[1]), (cols[2], cols[3])
+        keep = [c.copy() for c in cols]
+        try:
+            out = np.asarray(call(fn, units, a, b))
+        except Exception as e:
+            return rec.fail(case, "%s on %d rows raised %s: %s" % (fn, n, type(e).__name__, e))
+        if out.shape != (n,):
+            return rec.fail(case, "%s on %d rows returned shape %r" % (fn, n, out.shape))
+        for c, k0 in zip(cols, keep):
+            if not np.array_equal(c, k0):
+                return rec.fail(case, "%s on %d rows modified an input array" % (fn, n))
+        err = np.abs(out.astype(LD) - tout[idx])
+        badm = ~(err <= tol) | ~(out >= 0) | ~(out <= vmax) | (ident[idx] & (out != 0))
+        if badm.any():
+            i = int(np.nonzero(badm)[0][0])
+            return rec.fail(case, "%s%s on %d rows (%s): row %d (base pair %r) is %.17g, true %.17g, identical=%s; %d rows wrong" % (
+                fn, "" if units is None else list(units), n, form, i, base[idx[i]].tolist(), float(out[i]), float(tout[idx[i]]),
+                bool(ident[idx[i]]), int(badm.sum())))
+        rec.ok(case, outcome="long:%s:%s" % (fn, form), nontrivial=bool(ident.any()))
+
+    # each length = a decimal or binary mark + more than one base period, so every base pair also sits beyond the mark
+    long_ns = ctx.pick((1000200, 2000200), (65736, 1000200, 1048776, 2000200, 2097352, 4000200, 8000200))
+    lunits = [(fn, un, n, form) for n in long_ns for fn, un in (("sphdist", None), ("sphdist", ("rad", "deg")), ("gcirc", None))
+              for form in ("arrays", "centre")]
+    ctx.lattice("long-arrays", lunits, one_long, bounds=dict(lengths=list(long_ns), base_period=199, forms=["arrays", "centre"]))
